@@ -91,19 +91,46 @@ impl<'text, Sc> Lexer<'text, Sc>
     #[must_use]
     pub fn with_column_metrics(mut self, metrics: ColumnMetrics) -> Self {
         *self.column_metrics_mut() = metrics;
+        self.remeasure_positions();
         self
     }
 
     #[must_use]
     pub fn with_line_ending(mut self, line_ending: LineEnding) -> Self {
         self.column_metrics_mut().line_ending = line_ending;
+        self.remeasure_positions();
         self
     }
 
     #[must_use]
     pub fn with_tab_width(mut self, tab_width: u8) -> Self {
         self.column_metrics_mut().tab_width = tab_width;
+        self.remeasure_positions();
         self
+    }
+
+    /// Re-measures the line and column of every position the lexer holds
+    /// using the current column metrics. Positions already produced by
+    /// scanning (after `with_filter`, say) were measured with the column
+    /// metrics in use at that time.
+    fn remeasure_positions(&mut self) {
+        let source = self.source_text;
+        let remeasure = |pos: Pos| -> Pos {
+            let start = source.start_position();
+            if pos.byte <= start.byte { return pos; }
+            let mut res = source.column_metrics().end_position(
+                &source.as_str()[..pos.byte - start.byte],
+                Pos { byte: 0, page: start.page });
+            res.byte += start.byte;
+            res
+        };
+        self.parse_start = remeasure(self.parse_start);
+        self.token_start = remeasure(self.token_start);
+        self.cursor = remeasure(self.cursor);
+        if let Some(buf) = self.buffer.as_mut() {
+            buf.peek_start = remeasure(buf.peek_start);
+            buf.peek_cursor = remeasure(buf.peek_cursor);
+        }
     }
 
     #[must_use]
